@@ -423,14 +423,13 @@ func checkC15(c *Ctx, r *Report) {
 				case *ast.RangeStmt:
 					if se, ok := x.X.(*ast.SelectorExpr); ok && se.Sel.Name == "literalChildren" {
 						sites = append(sites, w.pos(x.Pos()))
-						// body is exactly dfs(child)
+						// body is exactly the recursive call on the child (its result possibly assigned)
 						if len(x.Body.List) == 1 {
-							if es, ok := x.Body.List[0].(*ast.ExprStmt); ok {
-								if cl, ok := es.X.(*ast.CallExpr); ok {
-									if isWalk(cl.Fun) {
-										inRange = true
-									}
-								}
+							if _, isIf := x.Body.List[0].(*ast.IfStmt); !isIf && containsNode(x.Body.List[0], func(m ast.Node) bool {
+								cl, ok := m.(*ast.CallExpr)
+								return ok && isWalk(cl.Fun)
+							}) {
+								inRange = true
 							}
 						}
 					}
